@@ -220,7 +220,22 @@ func printerCarve(fs *mon.Findings, f syntax.Node, o POpts) string {
 			if x.Repl != nil && x.Repl.Orig == nil {
 				hit("C01-zsh-empty-replace")
 			}
+		case *syntax.DblQuoted:
+			for i, part := range x.Parts {
+				if l, ok := part.(*syntax.Lit); ok && strings.HasSuffix(l.Value, "$") && i+1 < len(x.Parts) {
+					if cs, ok := x.Parts[i+1].(*syntax.CmdSubst); ok && cs.Backquotes {
+						hit("C01-dollar-before-backquote-substitution")
+					}
+				}
+			}
 		case *syntax.Word:
+			for i, part := range x.Parts {
+				if l, ok := part.(*syntax.Lit); ok && strings.HasSuffix(l.Value, "$") && i+1 < len(x.Parts) {
+					if cs, ok := x.Parts[i+1].(*syntax.CmdSubst); ok && cs.Backquotes {
+						hit("C01-dollar-before-backquote-substitution")
+					}
+				}
+			}
 			if o.Minify {
 				for i, part := range x.Parts {
 					pe, ok := part.(*syntax.ParamExp)
